@@ -1,4 +1,4 @@
-SPECIFICATION MCSpec
+SPECIFICATION MCSpecFam
 CONSTANTS
   Cap = 2
   SegCaps = {1, 2, 3}
